@@ -170,6 +170,8 @@ func run(c *core.Ctx) error {
 		}
 		if c.Quick() {
 			hs = lakeh.Sub(hs, 120, c.Seed)
+		} else {
+			hs = lakeh.Sub(hs, 1200, c.Seed)
 		}
 		rp := &lakeh.Replayer{C: c, M: m, Ctx: ctx, CheckCommits: true, Warm: true, WarmHandles: 2, OnIssue: histReportW(c, m, 2)}
 		if err := rp.ReplayAll(hs); err != nil {
